@@ -376,7 +376,7 @@ func (e *Executor) startExecution(ctx context.Context, t *ast.Task, execute func
 
 	e.executionHashesMutex.Lock()
 
-	if otherExecutionCtx, ok := e.executionHashes[h]; ok {
+	if other, ok := e.executionHashes[h]; ok {
 		e.executionHashesMutex.Unlock()
 		e.Logger.VerboseErrf(logger.Magenta, "task: skipping execution of task: %s\n", h)
 
@@ -384,17 +384,25 @@ func (e *Executor) startExecution(ctx context.Context, t *ast.Task, execute func
 		reacquire := e.releaseConcurrencyLimit()
 		defer reacquire()
 
-		<-otherExecutionCtx.Done()
-		return nil
+		// Wait until the other execution has really finished and report its outcome
+		<-other.done
+		return other.err
 	}
 
-	ctx, cancel := context.WithCancel(ctx)
-	defer cancel()
-
-	e.executionHashes[h] = ctx
+	this := &execution{done: make(chan struct{})}
+	e.executionHashes[h] = this
 	e.executionHashesMutex.Unlock()
 
-	return execute(ctx)
+	defer close(this.done)
+	this.err = execute(ctx)
+	return this.err
+}
+
+// execution is the single real run of a deduplicated task that later callers
+// wait for.
+type execution struct {
+	done chan struct{}
+	err  error
 }
 
 // FindMatchingTasks returns a list of tasks that match the given call. A task
